@@ -209,7 +209,7 @@ def wire_row_problems(r, cls, state, subkinds):
     first = _first_fsm_event(r)
     ret = cval(r.val)
     if first is None and cls in ('OPEN', 'NOTIFICATION', 'ROUTEREFRESH', 'UPDATE') and \
-            any(f.startswith('short-unpack@') for f in r.flags):
+            any(f.startswith(('short-unpack@', 'opaque-raise@')) for f in r.flags):
         # a field inside the message is truncated (decoder raised, caught by parse_buffer): outside
         # the property's event alphabet; only containment is required (no state change, or a clean
         # error close)
